@@ -20,7 +20,7 @@ type C08Case struct {
 
 func drawC08(t *rapid.T) *C08Case {
 	c := &C08Case{}
-	R := rapid.SampledFrom([]int64{30, 1000, 100000, 1 << 27}).Draw(t, "R")
+	R := rapid.SampledFrom([]int64{30, 1000, 100000, 1 << 27, 1 << 33, 1 << 40}).Draw(t, "R") // edge products reach 2^63 from 2^32 on
 	// rapid favours small magnitudes, which makes thin parallelograms; half the cases
 	// hash the drawn values into generic position instead
 	spread := rapid.Bool().Draw(t, "spread")
@@ -190,7 +190,7 @@ func judgeC08(c *C08Case, cx *Ctx) *Violation {
 			classCache = 2
 		}
 	}
-	cx.St.Eval(c, nIn > 0 && nOut > 0 && (!convex || openSegs || c.Closed), "op:"+sumName(c.Diff), boolLabel("quads-near-degenerate", classCache == 2), boolLabel("closed", c.Closed), boolLabel("convex-pattern", convex), pointsLabel(len(c.Path)))
+	cx.St.Eval(c, nIn > 0 && nOut > 0 && (!convex || openSegs || c.Closed), "op:"+sumName(c.Diff), boolLabel("quads-near-degenerate", classCache == 2), boolLabel("closed", c.Closed), boolLabel("convex-pattern", convex), pointsLabel(len(c.Path)), magnitudeLabel(Paths{c.Pattern, c.Path}))
 	cx.St.Count("mismatch_attributed_to_listed_engine_finding", int64(att))
 	return nil
 }
@@ -210,3 +210,21 @@ func init() {
 }
 
 func TestC08(t *testing.T) { runProp(t, "C08") }
+
+// magnitudeLabel buckets the largest coordinate magnitude (2^31.5 is where a product of two
+// coordinate differences leaves int64).
+func magnitudeLabel(ps Paths) string {
+	var m int64
+	for _, p := range ps {
+		for _, v := range p {
+			m = max(m, abs64(v.X), abs64(v.Y))
+		}
+	}
+	switch {
+	case m < 1<<20:
+		return "magnitude:<2^20"
+	case m < 1<<31:
+		return "magnitude:2^20..2^31"
+	}
+	return "magnitude:>=2^31"
+}
